@@ -40,6 +40,19 @@ Theorem C06_drivers_agree : forall W Q W' ops sb sf,
   forall h, same_outcome (phase_of h (b_ev sb)) (phase_of h (f_ev sf)).
 Proof. exact drivers_agree. Qed.
 
+(* ... stated as an equation: ANY two complete runs of the same workload — different worker counts, queue bounds,
+   interleavings, and either driver — give every file the same outcome once the completion order of its blocks is
+   forgotten (block writes are aligned and disjoint, C01, so that order does not matter for the bytes) *)
+Theorem C06_two_schedules_same_outcome : forall W1 Q1 W2 Q2 ops s1 s2,
+  reachable W1 Q1 ops s1 -> final s1 = true -> reachable W2 Q2 ops s2 -> final s2 = true ->
+  forall h, norm_phase (phase_of h (b_ev s1)) = norm_phase (phase_of h (b_ev s2)).
+Proof. exact parblock_two_schedules_same_outcome. Qed.
+
+Theorem C06_drivers_same_outcome : forall W Q W' ops sb sf,
+  reachable W Q ops sb -> final sb = true -> freachable W' ops sf -> ffinal sf = true ->
+  forall h, norm_phase (phase_of h (b_ev sb)) = norm_phase (phase_of h (f_ev sf)).
+Proof. exact drivers_same_outcome. Qed.
+
 (* what PFinal means, concretely: the events of the file, oldest first *)
 Theorem C06_history_shape : forall h ev,
   match phase_of h ev with
@@ -137,3 +150,5 @@ Print Assumptions C06_directory_before_children.
 Print Assumptions C06_src_block_fallback_is_positional.
 Print Assumptions C06_src_pin_parblock_queue_file_range.
 Print Assumptions C06_src_pin_operations_drop.
+Print Assumptions C06_two_schedules_same_outcome.
+Print Assumptions C06_drivers_same_outcome.
